@@ -14,6 +14,7 @@
 Anything else -> bad-op.
 -/
 import HvAlg.Model.Algebra
+import HvAlg.Gen.Composites
 import HvAlg.Model.Semiring
 open HvAlg
 
